@@ -100,7 +100,9 @@ class MaskAnalysis(object):
             a = self.mask_of(e.kids[1], fs, at, depth + 1)
             b = self.mask_of(e.kids[2], fs, at, depth + 1)
             if a and b:
-                return Mask('or', a, b)
+                m_ = Mask('or', a, b)
+                m_.cond = e.kids[0]
+                return m_
             return None
         if k == 'BinaryOperator' and e.op in ('<<', '>>'):
             l = strip(e.kids[0], casts=True)
@@ -198,7 +200,9 @@ class MaskAnalysis(object):
             a = self.confined_by(e.kids[1], fs, at)
             b = self.confined_by(e.kids[2], fs, at)
             if a is not None and b is not None:
-                return Mask('or', a, b)
+                m_ = Mask('or', a, b)
+                m_.cond = e.kids[0]
+                return m_
         m = self.mask_of(e, fs, at)
         return m
 
@@ -659,7 +663,10 @@ class Verdicts(object):
                 return True, 'owner/table destination: value confined to valid columns, excess zeroed'
             # conditional mask  (E != 1) ? begin : begin & end
             if form == 'ASSIGNM' and m is not None and m.kind == 'or' and m.b.within_hb(None):
-                return True, 'owner/table destination: first word, masked by mask_end as well when the row is one word'
+                okc, whyc = self._one_word_condition(st, fs, m)
+                if okc:
+                    return True, 'owner/table destination: first word, masked by mask_end as well when the row part is one word (%s)' % whyc
+                return False, 'first word of the row part: mask_end is applied only under a condition that is not "this word is also the last one": %s' % whyc
         if form == 'MASKED':
             if m is not None and (m.within_hb(None)):
                 # the mask must belong to the destination or to a matrix at most as wide
@@ -677,6 +684,48 @@ class Verdicts(object):
                 return True, 'whole-word XOR from clean table rows (%s)' % why
             return False, 'whole-word XOR at position %s from a source that is not a clean table: %s' % (pos, why)
         return False, '%s store at position %s' % (form, pos)
+
+    def _one_word_condition(self, st, fs, m):
+        """`mask = (E != 1) ? begin : begin & end` stored through `*p++` with p = row + OFF: the masked arm is taken exactly
+        when the word is the last one of the row, i.e. E is X->width - OFF."""
+        cond = getattr(m, 'cond', None)
+        if cond is None:
+            return False, 'the choice between the two masks is not a recognisable condition'
+        c = strip(cond, casts=True)
+        if not (c.kind == 'BinaryOperator' and c.op in ('!=', '>') and int_value(c.kids[1]) == 1):
+            return False, 'condition `%s` is not of the form `words != 1`' % pp(c)[:50]
+        E = fs.sym(c.kids[0])
+        # the pointer stored through and its starting offset
+        l = strip(st.lhs, casts=True)
+        while l is not None and l.kind in ('UnaryOperator', 'ArraySubscriptExpr', 'ParenExpr') and l.kids:
+            l = strip(l.kids[0], casts=True)
+        if l is None or l.kind != 'DeclRefExpr':
+            return False, 'store target not understood'
+        d = fs.single_def(l.refid)
+        if d is None:
+            d = self.MA.prev_def(l.refid, st.node, fs) if hasattr(self.MA, 'prev_def') else None
+        if d is None:
+            ds = fs.defs.get(l.refid, [])
+            d = ds[0] if ds else None
+        if d is None:
+            return False, 'no definition of `%s`' % l.ref
+        # the store is the first step of the pointer: nothing advances it between its definition and here
+        for n_ in st.func.body.walk():
+            if (n_.kind == 'UnaryOperator' and n_.op in ('++', '--')) or (n_.kind == 'CompoundAssignOperator' and n_.op in ('+=', '-=')):
+                t_ = strip(n_.kids[0], casts=True)
+                if t_.kind == 'DeclRefExpr' and t_.refid == l.refid:
+                    if not any(x is n_ for x in st.node.walk()):
+                        return False, '`%s` is advanced before this store: it is not the first word of the row part' % l.ref
+                    break
+        d0 = strip(d, casts=True)
+        off = Lin(0)
+        if d0.kind == 'BinaryOperator' and d0.op == '+':
+            a0, b0 = strip(d0.kids[0], casts=True), strip(d0.kids[1], casts=True)
+            off = fs.sym(b0) if type_is_pointer(a0.type or '') or a0.kind == 'CallExpr' else fs.sym(a0)
+        for X in [p_.name for p_ in st.func.params if 'mzd_t' in (p_.type or '')]:
+            if E == Lin.atom('%s.width' % X) - off:
+                return True, '`%s` is %s->width minus the starting word' % (pp(strip(c.kids[0], casts=True))[:40], X)
+        return False, '`%s` (= %r) is not the number of words from the starting word (%r) to the end of the row' % (pp(c)[:50], E, off)
 
     def _mask_owner(self, m):
         if m.kind == 'hb':
@@ -1543,4 +1592,102 @@ def rule_W1(ctx, prog, label, rule='W1', only_funcs=None):
             rr.ob(ok, None, Finding(rule, '%s|%s|%s' % (rule, f.name, pp(x)[:40]), x.loc, f.name,
                                     '`%s` is evaluated in %s and then widened to %s: target bit positions >= 31 are lost or sign-extended' % (pp(x)[:70], t, (widened.dtype or widened.type) if widened else ''), {}, label))
     rr.require_floor(100 if only_funcs is None else 1, 'left shifts')
+    return rr
+
+
+# ====================================================================== MV1: placers overwrite (C08)
+
+PLACERS = ('mzd_copy', 'mzd_copy_row', 'mzd_submatrix', 'mzd_concat', 'mzd_stack', 'mzd_extract_u', 'mzd_extract_l')
+_ACCUM_CALLS = ('mzd_xor_bits', 'mzd_combine', 'mzd_combine_even', 'mzd_combine_even_in_place', 'mzd_row_add', 'mzd_row_add_offset',
+                '_mzd_combine', 'mzd_add', '_mzd_add', 'mzd_addmul', '_mzd_addmul')
+
+
+def rule_MV1(ctx, prog, label, rule='MV1', placers=PLACERS):
+    """A data mover places its source entries in the destination whatever the destination held before: every write into
+    the destination is an overwriting form, or an accumulating form (^=, |=, mzd_xor_bits, row addition) that directly
+    follows a write that cleared the same location."""
+    rr = RuleResult(rule, 'data movers overwrite: no accumulating write into the destination without a clearing write of the same location before it')
+    eff = ctx.effects(prog)
+    nfun = 0
+    njust = 0
+    for name in placers:
+        f = prog.funcs.get(name)
+        if f is None or f.body is None:
+            raise AnalysisBroken('%s: data mover %s no longer exists' % (rule, name))
+        nfun += 1
+        Q = eff.query(f)
+        fs = FuncSym(f)
+        dst = 0
+        if not ('mzd_t' in (f.params[0].type or '') and 'const' not in (f.params[0].type or '').split('*')[0]):
+            raise AnalysisBroken('%s: first parameter of %s is no longer the destination matrix' % (rule, name))
+
+        def into_dst(e, parts):
+            return any(r[0] == 'p' and r[1] == dst and part in parts for (r, part) in e)
+
+        def prior_in_block(n):
+            """statements before the one holding n in its innermost block (nearest first)"""
+            blk = fs.enclosing(n, ('CompoundStmt',))
+            if blk is None:
+                return []
+            idx = None
+            for i, s in enumerate(blk.kids):
+                if any(x is n for x in s.walk()):
+                    idx = i
+            return list(reversed(blk.kids[:idx])) if idx is not None else []
+
+        for n in f.body.walk():
+            if n.kind == 'CompoundAssignOperator' and n.op in ('^=', '|=', '+=', '-='):
+                l = strip(n.kids[0])
+                if l.kind == 'DeclRefExpr' or (l.type or '') not in ('word', '__m128i', 'uint64_t'):
+                    continue
+                if not into_dst(Q.lv(n.kids[0]), ('data',)):
+                    continue
+                rr.instances += 1
+                ltxt = pp(strip(n.kids[0], casts=True))
+                ok, why = False, ''
+                for s in prior_in_block(n):
+                    s0 = strip(s, casts=True)
+                    if s0 is None:
+                        continue
+                    if s0.kind == 'BinaryOperator' and s0.op == '=' and pp(strip(s0.kids[0], casts=True)) == ltxt:
+                        ok, why = True, 'the same word is assigned just before'
+                        break
+                    if s0.kind == 'CompoundAssignOperator' and s0.op == '&=' and pp(strip(s0.kids[0], casts=True)) == ltxt:
+                        m = strip(s0.kids[1], casts=True)
+                        if m.kind == 'UnaryOperator' and m.op == '~':
+                            mt = pp(strip(m.kids[0], casts=True))
+                            r = strip(n.kids[1], casts=True)
+                            if r.kind == 'BinaryOperator' and r.op == '&' and mt in (pp(strip(r.kids[0], casts=True)), pp(strip(r.kids[1], casts=True))):
+                                ok, why = True, 'the bits under %s are cleared just before and only those are added' % mt
+                        break
+                    if any(x.kind in ('BinaryOperator', 'CompoundAssignOperator') and x.op in ('=', '&=', '|=', '^=') and
+                           pp(strip(x.kids[0], casts=True)) == ltxt for x in s.walk()):
+                        break
+                njust += 1 if ok else 0
+                rr.ob(ok, dict(function=name, write=pp(n)[:80], discharged_by=why) if ok else None,
+                      Finding(rule, '%s|%s|%s' % (rule, name, n.op), n.loc, name,
+                              '`%s` adds to the destination words of %s without a clearing write of the same bits before it: with a supplied '
+                              'destination the result depends on what it held before' % (pp(n)[:80], name), {}, label))
+            elif n.kind == 'CallExpr' and callee_name(n) in _ACCUM_CALLS and len(n.kids) > 1:
+                if not into_dst(Q.pts(n.kids[1]), ('hdr', 'data', 'win')):
+                    continue
+                rr.instances += 1
+                cn = callee_name(n)
+                ok, why = False, ''
+                if cn == 'mzd_xor_bits' and len(n.kids) >= 5:
+                    want = [pp(strip(k, casts=True)) for k in n.kids[1:5]]
+                    for s in prior_in_block(n):
+                        s0 = strip(s, casts=True)
+                        if s0 is not None and s0.kind == 'CallExpr' and callee_name(s0) == 'mzd_clear_bits' and \
+                                [pp(strip(k, casts=True)) for k in s0.kids[1:5]] == want:
+                            ok, why = True, 'mzd_clear_bits on the same range just before'
+                        break
+                njust += 1 if ok else 0
+                rr.ob(ok, dict(function=name, write=pp(n)[:80], discharged_by=why) if ok else None,
+                      Finding(rule, '%s|%s|%s' % (rule, name, cn), n.loc, name,
+                              '`%s` accumulates into the destination of %s without clearing the same range first: with a supplied '
+                              'destination the result depends on what it held before' % (pp(n)[:80], name), {}, label))
+    rr.instances += nfun
+    rr.extra['accumulating_writes_justified'] = njust
+    rr.require_floor(len(placers), 'data movers')
     return rr
